@@ -399,3 +399,14 @@ func (ex *Exec) noteIx(t string) {
 	ex.ixSeen[t] = true
 	ex.w.axioms = append(ex.w.axioms, "("+ex.ixFn()+" "+t+")")
 }
+
+// zeroRow: an array whose every element is the zero value of the element sort (a declared
+// constant with a defining axiom: cvc5 rejects `as const` arrays over uninterpreted values).
+func (ex *Exec) zeroRow(es *Sort) string {
+	n := sym("zerorow_" + strings.Trim(es.Name, "|"))
+	if !ex.w.declared[n] {
+		ex.w.declConst(n, ex.w.seqSort(es))
+		ex.w.axioms = append(ex.w.axioms, fmt.Sprintf("(forall ((k Int)) (! (= (select %s k) %s) :pattern ((select %s k))))", n, ex.w.zero(es), n))
+	}
+	return n
+}
